@@ -4,13 +4,21 @@ namespace MaddyVerif.Expect.FuncSkelC06
 /-- (declaration, fingerprint of its normalised text): comments, layout, local names and log/trace statements do not count -/
 def funcs : List (String × String) := [
   ("framework/config/module/check_action.go:FailAction.Apply", "00e744fd3ad38739"),
+  ("framework/config/module/check_action.go:FailActionDirective", "95519f5afb7f4b3d"),
+  ("framework/config/module/check_action.go:ParseActionDirective", "b95b081e8517768a"),
+  ("framework/config/module/check_action.go:ParseRejectDirective", "dae4612b5f13be22"),
+  ("framework/config/module/check_action.go:parseEnhancedCode", "09fb8bd2bca44007"),
+  ("framework/config/module/check_action.go:type FailAction", "188a62456c6af3a2"),
   ("internal/msgpipeline/check_runner.go:checkRunner.applyResults", "7aa5b1a3a230ef0d"),
   ("internal/msgpipeline/check_runner.go:checkRunner.checkBody", "772d1186a2a91890"),
   ("internal/msgpipeline/check_runner.go:checkRunner.checkConnSender", "6a04d568e3e6a795"),
   ("internal/msgpipeline/check_runner.go:checkRunner.checkRcpt", "1b3553cdc4125320"),
+  ("internal/msgpipeline/check_runner.go:checkRunner.checkRcptOnce", "c87723fd85520250"),
   ("internal/msgpipeline/check_runner.go:checkRunner.checkStates", "89a836a19d422e06"),
   ("internal/msgpipeline/check_runner.go:checkRunner.close", "e834eae43bae2264"),
   ("internal/msgpipeline/check_runner.go:checkRunner.runAndMergeResults", "3f1b9e96eeb78dc5"),
+  ("internal/msgpipeline/check_runner.go:newCheckRunner", "ed0bad378403fdeb"),
+  ("internal/msgpipeline/check_runner.go:type checkRunner", "565087d00ce2a137"),
   ("internal/msgpipeline/msgpipeline.go:msgpipelineDelivery.Body", "7dc627c0fe03620b"),
   ("internal/msgpipeline/msgpipeline.go:msgpipelineDelivery.BodyNonAtomic", "9ef190be8c536e0f")
 ]
